@@ -410,6 +410,8 @@ func (m *TModel) Apply(o TOp, implNil bool) TRet {
 			}
 		}
 		return TRet{}
+	case "String":
+		return TRet{}
 	case "Wipe":
 		var cs []string
 		for c := range m.Chans {
@@ -539,6 +541,9 @@ func RunOnTracker(st state.Tracker, o TOp) TRet {
 		return TRet{}
 	case "Wipe":
 		st.Wipe()
+		return TRet{}
+	case "String":
+		_ = st.String()
 		return TRet{}
 	}
 	panic("unknown tracker op " + o.Kind)
